@@ -121,6 +121,8 @@ def walk_two_vertices(v0, v1, layers):
             position = (value, interpolation(value))
         else:
             position = (interpolation(value), value)
+        # pixels are addressed by integers (Image.getpixel truncates): keep each pixel of the band only once
+        position = (int(position[0]), int(position[1]))
 
         vertices_to_return.update(get_layer_elements(position, layers))
     return vertices_to_return
